@@ -5,7 +5,7 @@
    are chosen by the schedule entry, so "for all schedules" covers every data-dependent control flow and every effect. *)
 From Coq Require Import List ZArith Bool Permutation.
 From V Require Import Lib.Enc Gen.SafeKVSkel Model.SafeKV Model.SafeKVCalls Model.SafeKVHist Run.C12 Proofs.SafeKVCalls Proofs.SafeKVInv Proofs.SafeKVConc Proofs.SafeKVSeq Proofs.SafeKVSkelOk Proofs.SafeKVExec Proofs.SafeKVRun Proofs.SafeKVLin
-  Proofs.SafeKVLinearize Proofs.SafeKVLinearizeThm Proofs.SafeKVLinearizeCor Proofs.SafeKVLinearizeSnap Proofs.SafeKVLinearizeRun.
+  Proofs.SafeKVLinearize Proofs.SafeKVLinearizeThm Proofs.SafeKVLinearizeCor Proofs.SafeKVLinearizeSnap Proofs.SafeKVLinearizeRun Proofs.SafeKVLinearizeLog.
 Import ListNotations.
 
 (* the skeletons extracted from the current mapz/safekv.go and mapz/iter.go obey the lock discipline (all of them, also
@@ -153,6 +153,15 @@ Theorem c12_history_calls_from_schedule : forall (P : call -> Prop) n m0 sched K
   Forall (fun hp => P (h_call hp)) (chistory n m0 sched ++ extra).
 Proof. exact history_calls. Qed.
 Print Assumptions c12_history_calls_from_schedule.
+
+(* the history is the machine's own log: its (call, result) pairs are, as a multiset, the (call, result) pairs of the threads'
+   ghost logs that c12_calls_atomic speaks about *)
+Theorem c12_history_is_the_log : forall n m0 sched,
+  Permutation (map (fun h => (h_call h, h_res h)) (chistory n m0 sched))
+              (flat_map (fun t => map (fun en : call * map_ * map_ * list Z => let '(cl, _, _, r) := en in (cl, r)) (clog t))
+                        (cths (crun (cinit n m0) sched))).
+Proof. exact history_is_the_log. Qed.
+Print Assumptions c12_history_is_the_log.
 
 (* corollaries on histories.  Exactly one of several concurrent SetNx on an absent key returns true: in a run from a map
    without k whose calls are SetNx on k (any values) and calls that do not change whether k is present, every SetNx on k
